@@ -133,6 +133,8 @@ def _build(i, s, b, f, catch_all):
     pool = hx.Pool(ints=i, strs=s, bools=fixed_bits(hx.ITEM) + tuple(b), floats=f)
     focus = int(hx.ITEM.split('#')[1]) if '#' in hx.ITEM else None
     gen = valgen.Gen(MODS, pool, max_list=NL, catch_all=catch_all, focus=focus)
+    if catch_all:                        # the encode-only property (C05) also sees timestamps that do not round-trip
+        gen.ts_choices = valgen.TS_CHOICES + valgen.TS_ENCODE_ONLY
     val, sh = gen.build(dt)
     if not isinstance(sh, tuple):
         # top-level primitive / list / map: nothing validated it yet; the real validator is the validity predicate
